@@ -11,11 +11,20 @@
  *   2. walkers: ghost-index loop contracts (contracts/registers-core.loops):
  *      reg_count_areas, reg_count_entries, ra_find_area_by_addr,
  *      ra_first_entry_of_next, reg_entry_is_in_memory.
+ *   2b. walkers of block access and iteration (builder regblock2): dfcc function
+ *      contracts + loop contracts, tables capped in length (tier A-len) but any
+ *      number of loop iterations: register_block_touches_hole, ra_writeable,
+ *      reg_taint_in_range, find_area (tier A), find_reg, reg_iterate.  Their
+ *      postconditions are the flat address-space statements of C02/C03 on a
+ *      plain-value map of the table (g_rb_ab/g_rb_ae/..., spec/registers-block.h)
+ *      that the requires clauses tie to the real lists.
  *   3. register_init, block read/write, iteration: NOT through dfcc (see the
  *      note at the end of this file); their postconditions from the property
  *      statements are spec functions over a value model of the table
  *      (spec/registers-block.h) that the harness asserts right after the real
  *      call (harness/registers-block.c), discharged by bounded model checking.
+ *      A contract of register_foreach_in over the walker contracts is written
+ *      down below (layer 3a) but NOT discharged and not used by replacement.
  */
 #ifndef CONTRACTS_REGISTERS_BLOCK_H
 #define CONTRACTS_REGISTERS_BLOCK_H
@@ -156,6 +165,10 @@ __CPROVER_assigns()
 __CPROVER_ensures(__CPROVER_return_value <= t->areas)
 __CPROVER_ensures(IMPLIES(__CPROVER_return_value < t->areas, RB_PART_OF32(&t->area[__CPROVER_return_value], addr)))
 __CPROVER_ensures(IMPLIES(g_j < __CPROVER_return_value, !RB_PART_OF32(&t->area[g_j], addr)))
+/* the same for every index at once when the list is short (for callers whose
+ * own loop variable plays the role of the index).  Compiled in for the
+ * A-len targets only (RB_SHORT_TABLES): target walk_ra_find_area_by_addr_short. */
+__CPROVER_ensures(RB_FIND_NONE_BELOW(t, __CPROVER_return_value, addr))
 ;
 
 /* first register at or behind `start` whose address is not in area a */
@@ -194,6 +207,184 @@ __CPROVER_ensures(IMPLIES(!__CPROVER_return_value,
 __CPROVER_ensures(IMPLIES(!__CPROVER_return_value && t->areas > 0,
     !(RB_PART_OF32(&t->area[0], e->address) && RB_FITS32(&t->area[0], e))))
 __CPROVER_ensures(e->type == __CPROVER_old(e->type) && e->address == __CPROVER_old(e->address))
+;
+
+/* ---- layer 2b: walkers of block access and iteration (tier A-len) ---------
+ * Tables with at most RB_AMAX areas / RB_EMAX registers; the area map
+ * g_rb_an/g_rb_ab/g_rb_ae (spec/registers-block.h) is tied to the table by
+ * RB_LINKED_A in every requires.  Further ghosts:
+ *   g_k      arbitrary register index     g_rb_x   arbitrary address */
+extern uint32_t g_rb_x;
+
+#define RB_TABLE_AREAS_OK(t) \
+  (__CPROVER_r_ok(t, sizeof(RegisterTable)) && (t)->areas <= RB_AMAX \
+   && __CPROVER_r_ok((t)->area, (size_t)(t)->areas * sizeof(RegisterArea)))
+#define RB_RV (__CPROVER_return_value)
+#define RB_REQ_END(addr, n) (RB_M64(addr) + RB_M64(n))
+
+/* C03/C02 "every addressed word is mapped ... otherwise the first unmapped
+ * address": flat address-space reading, for EVERY request (addr, n) -- also one
+ * whose end addr+n lies beyond the 32-bit address space: such a request can
+ * never be all mapped (areas end inside the address space, so 0xffffffff is
+ * never mapped).  The result is SUCCESS or NOENTRY; NOENTRY names an address
+ * of the request that no area maps, and every address of the request below it
+ * (all n on SUCCESS) is mapped.  g_rb_x: any address. */
+RegisterAccess register_block_touches_hole(RegisterTable *t, RegisterAddress addr, RegisterOffset n)
+__CPROVER_requires(RB_TABLE_AREAS_OK(t))
+__CPROVER_requires(RB_LINKED_A(t))
+__CPROVER_requires(RB_MAP_WF)
+__CPROVER_assigns()
+__CPROVER_ensures(RB_RV.code == REG_ACCESS_SUCCESS || RB_RV.code == REG_ACCESS_NOENTRY)
+__CPROVER_ensures(IMPLIES(RB_RV.code == REG_ACCESS_SUCCESS, RB_RV.address == 0u && RB_REQ_END(addr, n) <= 0xffffffffull))
+__CPROVER_ensures(IMPLIES(RB_RV.code == REG_ACCESS_NOENTRY,
+    addr <= RB_RV.address && RB_M64(RB_RV.address) < RB_REQ_END(addr, n) && !RB_MAPPED(RB_RV.address)))
+__CPROVER_ensures(IMPLIES(RB_RV.code == REG_ACCESS_NOENTRY && addr <= g_rb_x && g_rb_x < RB_RV.address, RB_MAPPED(g_rb_x)))
+__CPROVER_ensures(IMPLIES(RB_RV.code == REG_ACCESS_SUCCESS && addr <= g_rb_x && RB_M64(g_rb_x) < RB_REQ_END(addr, n),
+    RB_MAPPED(g_rb_x)))
+;
+
+/* C02 "every touched area is writable ... the first address inside the request
+ * at which that failure arises": SUCCESS or READONLY; READONLY names an address
+ * of the request that lies in an area that is not writable, and no address of
+ * the request below it (none at all on SUCCESS) lies in such an area. */
+static RegisterAccess ra_writeable(RegisterTable *t, RegisterAddress addr, RegisterOffset n)
+__CPROVER_requires(RB_TABLE_AREAS_OK(t))
+__CPROVER_requires(RB_LINKED_A(t))
+__CPROVER_requires(RB_LINKED_AW(t))
+__CPROVER_requires(RB_MAP_WF)
+__CPROVER_requires(RB_MAP_SORTED)
+__CPROVER_requires(n >= 1u && RB_REQ_END(addr, n) <= 0xffffffffull)
+__CPROVER_assigns()
+__CPROVER_ensures(RB_RV.code == REG_ACCESS_SUCCESS || RB_RV.code == REG_ACCESS_READONLY)
+__CPROVER_ensures(IMPLIES(RB_RV.code == REG_ACCESS_SUCCESS, RB_RV.address == 0u))
+__CPROVER_ensures(IMPLIES(RB_RV.code == REG_ACCESS_READONLY,
+    addr <= RB_RV.address && RB_RV.address < RB_U32(addr + n) && RB_READONLY_AT(RB_RV.address)))
+__CPROVER_ensures(IMPLIES(RB_RV.code == REG_ACCESS_READONLY && addr <= g_rb_x && g_rb_x < RB_RV.address, !RB_READONLY_AT(g_rb_x)))
+__CPROVER_ensures(IMPLIES(RB_RV.code == REG_ACCESS_SUCCESS && addr <= g_rb_x && g_rb_x < RB_U32(addr + n), !RB_READONLY_AT(g_rb_x)))
+/* the form register_block_write passes on: every area overlapping the request is writable */
+__CPROVER_ensures(IMPLIES(RB_RV.code == REG_ACCESS_SUCCESS, RB_WRITABLE_BELOW(g_rb_an, addr, RB_U32(addr + n))))
+;
+
+/* C02 "the overlapped registers are marked touched" -- exactly those: register
+ * g_k (any) carries the mark iff it overlaps [addr, addr+n) or carried it
+ * before; nothing else of it changes.  g_rb_e0: the register before the call. */
+extern RegisterEntry g_rb_e0;
+extern uint16_t g_rb_f0;      /* flags of register g_k before the call */
+#define RB_TABLE_ENTRIES_RW_OK(t) \
+  (__CPROVER_r_ok(t, sizeof(RegisterTable)) && (t)->entries <= RB_EMAX \
+   && __CPROVER_rw_ok((t)->entry, (size_t)(t)->entries * sizeof(RegisterEntry)) && RB_DISTINCT_OBJECT(t, (t)->entry))
+#define RB_TABLE_ENTRIES_OK(t) \
+  (__CPROVER_r_ok(t, sizeof(RegisterTable)) && (t)->entries <= RB_EMAX \
+   && __CPROVER_r_ok((t)->entry, (size_t)(t)->entries * sizeof(RegisterEntry)))
+
+static void reg_taint_in_range(RegisterTable *t, RegisterAddress addr, RegisterOffset n)
+__CPROVER_requires(RB_TABLE_ENTRIES_RW_OK(t))
+__CPROVER_requires(RB_LINKED_E(t))
+__CPROVER_requires(RB_EMAP_SORTED_AT(g_k))
+__CPROVER_requires(n >= 1u && RB_REQ_END(addr, n) <= 0xffffffffull)
+__CPROVER_requires(IMPLIES(g_k < t->entries, t->entry[g_k].flags == g_rb_f0))
+/* frame: nothing but the flags fields of the registers */
+__CPROVER_assigns(RB_ALL_FLAGS_TGT(t))
+__CPROVER_ensures(IMPLIES(g_k < t->entries && RB_ME_OVERLAPS(g_k, addr, RB_U32(addr + n)), t->entry[g_k].flags == (g_rb_f0 | REG_EF_TOUCHED)))
+__CPROVER_ensures(IMPLIES(g_k < t->entries && !RB_ME_OVERLAPS(g_k, addr, RB_U32(addr + n)), t->entry[g_k].flags == g_rb_f0))
+;
+
+/* C03 iteration, step 1: the first area of [first, last] (list order) that claims addr */
+static struct maybe_area find_area(const RegisterTable *t, AreaHandle first, AreaHandle last, RegisterAddress addr)
+__CPROVER_requires(__CPROVER_r_ok(t, sizeof(RegisterTable)) && last < t->areas)
+__CPROVER_requires(__CPROVER_r_ok(t->area, (size_t)t->areas * sizeof(RegisterArea)))
+__CPROVER_assigns()
+__CPROVER_ensures(IMPLIES(RB_RV.valid, first <= RB_RV.handle && RB_RV.handle <= last && RB_PART_OF32(&t->area[RB_RV.handle], addr)))
+__CPROVER_ensures(IMPLIES(first <= g_j && g_j <= last && (!RB_RV.valid || g_j < RB_RV.handle), !RB_PART_OF32(&t->area[g_j], addr)))
+__CPROVER_ensures(IMPLIES(first > last, !RB_RV.valid))
+;
+
+/* step 2: the first register of [first, last] that does not lie wholly below addr */
+#define RB_EI(i) ((i) < 64u ? (i) : 64u)
+static struct maybe_register find_reg(const RegisterTable *t, RegisterHandle first, RegisterHandle last, RegisterAddress addr)
+__CPROVER_requires(RB_TABLE_ENTRIES_OK(t) && last < t->entries)
+__CPROVER_requires(RB_ALL_ENTRIES_ENUM(t))
+__CPROVER_assigns()
+__CPROVER_ensures(IMPLIES(RB_RV.valid, first <= RB_RV.handle && RB_RV.handle <= last && !(RB_E_END32(&t->entry[RB_RV.handle]) <= addr)))
+__CPROVER_ensures(IMPLIES(first <= g_k && g_k <= last && (!RB_RV.valid || g_k < RB_RV.handle), RB_E_END32(&t->entry[g_k]) <= addr))
+__CPROVER_ensures(IMPLIES(first > last, !RB_RV.valid))
+;
+
+/* step 3: the callback (stub rb_stub_iter, stubs/register_area_callbacks.h) is
+ * called for start, start+1, ... in this order (the stub flags any other
+ * sequence, a wrong table/argument and a call after a non-zero result in
+ * g_it_bad), every register visited begins at or below `end`, and the walk
+ * stops only at a non-zero result, at the end of the list or at the first
+ * register that begins behind `end`. */
+static RegisterAccess reg_iterate(RegisterTable *t, RegisterHandle start, RegisterAddress end, registerCallback f, void *arg)
+__CPROVER_requires(__CPROVER_r_ok(t, sizeof(RegisterTable)) && t->entries >= 1u)
+__CPROVER_requires(__CPROVER_r_ok(t->entry, (size_t)t->entries * sizeof(RegisterEntry)))
+__CPROVER_requires(f == rb_stub_iter && g_it_table == t && g_it_arg == arg && g_it_calls == 0u && !g_it_bad && !g_it_stopped)
+__CPROVER_assigns(g_it_calls, g_it_first, g_it_bad, g_it_stopped, g_it_last_rc)
+__CPROVER_ensures(!g_it_bad)
+__CPROVER_ensures(IMPLIES(g_it_calls > 0u, g_it_first == start))
+__CPROVER_ensures(RB_M64(start) + g_it_calls <= RB_M64(t->entries) || g_it_calls == 0u)
+__CPROVER_ensures(IMPLIES(start <= g_k && RB_M64(g_k) < RB_M64(start) + g_it_calls, g_k < t->entries && t->entry[g_k].address <= end))
+__CPROVER_ensures(IMPLIES(!g_it_stopped && RB_M64(start) + g_it_calls < RB_M64(t->entries), t->entry[start + g_it_calls].address > end))
+__CPROVER_ensures(IMPLIES(g_it_stopped, g_it_calls > 0u && g_it_last_rc != 0))
+__CPROVER_ensures(IMPLIES(g_it_stopped && g_it_last_rc < 0,
+    RB_RV.code == REG_ACCESS_FAILURE && RB_RV.address == t->entry[start + g_it_calls - 1u].address))
+__CPROVER_ensures(IMPLIES(!(g_it_stopped && g_it_last_rc < 0), RB_RV.code == REG_ACCESS_SUCCESS && RB_RV.address == 0u))
+;
+
+/* ---- layer 3a: callers, modular -- NOT DISCHARGED -----------------------------
+ * register_foreach_in is loop-free once find_area / find_reg / reg_iterate are
+ * replaced by their contracts, and the clauses below are what the statement
+ * says; but the query (harness h_register_foreach_in_contract, 4 areas x 8
+ * registers: 11.6 M clauses) did not finish in 5 minutes, so no target
+ * enforces this contract and nothing uses it by replacement.  The property is
+ * decided for register_foreach_in by the bounded target C03/foreach_in only. */
+
+/* What register_init establishes (C04) as far as iteration relies on it, on the
+ * area map / register map:  areas inside the 32-bit space; registers of value
+ * type inside the 32-bit space, ascending and disjoint; an area that records
+ * registers records a valid first handle, and every register before that
+ * handle ends at or below the area's base (it is located in an earlier area). */
+#define RB_RUNS_OK_AT(t, k) \
+  RB_ALL_A(q_ru, IMPLIES(q_ru < g_rb_an && (t)->area[q_ru].entry.count > 0u, \
+      (t)->area[q_ru].entry.first < g_rb_en && IMPLIES((k) < (t)->area[q_ru].entry.first, g_rb_ee[(k) < 64u ? (k) : 64u] <= g_rb_ab[q_ru])))
+#define RB_ITER_TABLE_WF(t) \
+  (RB_TABLE_AREAS_OK(t) && (t)->areas >= 1u && RB_LINKED_A(t) && RB_MAP_WF \
+   && RB_TABLE_ENTRIES_OK(t) && RB_LINKED_E(t) && RB_EMAP_SORTED_AT(g_k) && RB_RUNS_OK_AT(t, g_k))
+#define RB_STUB_FRESH(t, f, arg) \
+  ((f) == rb_stub_iter && g_it_table == (t) && g_it_arg == (arg) && g_it_calls == 0u && !g_it_bad && !g_it_stopped)
+#define RB_GK_OVERLAPS(addr, off) ((off) != 0u && g_k < g_rb_en && RB_ME_OVERLAPS(g_k < 64u ? g_k : 64u, addr, RB_U32((addr) + (off))))
+
+/* C03 iteration: "calls the callback exactly for the registers that overlap the
+ * range, in ascending order, stopping at the first non-zero callback result
+ * (negative meaning failure at that register's address)"; C04: an
+ * uninitialised table is reported as such and nothing is called.
+ * The callback is the stub rb_stub_iter; !g_it_bad = the calls came with the
+ * caller's table and argument, for g_it_first, g_it_first+1, ... without gaps,
+ * and none after a non-zero result.  g_k: any register. */
+RegisterAccess register_foreach_in(RegisterTable *t, RegisterAddress addr, RegisterOffset off, registerCallback f, void *arg)
+__CPROVER_requires(__CPROVER_r_ok(t, sizeof(RegisterTable)))
+__CPROVER_requires(IMPLIES(RB_INITIALISED(t), RB_TABLE_AREAS_OK(t) && t->areas >= 1u && RB_TABLE_ENTRIES_OK(t)))
+__CPROVER_requires(IMPLIES(RB_INITIALISED(t), RB_LINKED_A(t)))
+__CPROVER_requires(IMPLIES(RB_INITIALISED(t), RB_MAP_WF))
+__CPROVER_requires(IMPLIES(RB_INITIALISED(t), RB_LINKED_E(t)))
+__CPROVER_requires(IMPLIES(RB_INITIALISED(t), RB_EMAP_SORTED_AT(g_k)))
+__CPROVER_requires(IMPLIES(RB_INITIALISED(t), RB_RUNS_OK_AT(t, g_k)))
+__CPROVER_requires(RB_REQ_END(addr, off) <= 0xffffffffull)
+__CPROVER_requires(RB_STUB_FRESH(t, f, arg))
+__CPROVER_assigns(g_it_calls, g_it_first, g_it_bad, g_it_stopped, g_it_last_rc)
+__CPROVER_ensures(IMPLIES(!RB_INITIALISED(t), RB_RV.code == REG_ACCESS_UNINITIALISED && g_it_calls == 0u))
+__CPROVER_ensures(!g_it_bad)
+/* only overlapping registers are visited */
+__CPROVER_ensures(IMPLIES(RB_INITIALISED(t) && g_it_calls > 0u && g_it_first <= g_k && RB_M64(g_k) < RB_M64(g_it_first) + g_it_calls,
+    RB_GK_OVERLAPS(addr, off)))
+/* every overlapping register is visited, unless the callback stopped the walk before it */
+__CPROVER_ensures(IMPLIES(RB_INITIALISED(t) && RB_GK_OVERLAPS(addr, off),
+    g_it_calls > 0u && g_it_first <= g_k && (RB_M64(g_k) < RB_M64(g_it_first) + g_it_calls || g_it_stopped)))
+__CPROVER_ensures(IMPLIES(g_it_stopped, g_it_calls > 0u && g_it_last_rc != 0))
+__CPROVER_ensures(IMPLIES(RB_INITIALISED(t) && g_it_stopped && g_it_last_rc < 0,
+    RB_RV.code == REG_ACCESS_FAILURE && RB_RV.address == g_rb_ea[RB_EI(g_it_first + g_it_calls - 1u)]))
+__CPROVER_ensures(IMPLIES(RB_INITIALISED(t) && !(g_it_stopped && g_it_last_rc < 0), RB_RV.code == REG_ACCESS_SUCCESS))
 ;
 
 /* ---- ghost record: expected outcomes computed by the spec functions ---- */
